@@ -46,10 +46,12 @@ func reentrant(c *core.Ctx) {
 }
 
 // Specs names the anchored functions of C07 for the helper inliner.
+var keep = []string{"SelectDB", "RestoreRdbEntry", "OpenRedisConn", "NewRDBLoader", "NextBinEntry", "Header", "Footer"}
+
 var Specs = []inl.Spec{
-	{Pkg: pkgSync, Roots: []string{"DbSyncer.syncRDBFile"}},
-	{Pkg: pkgRun, Roots: []string{"dbRestorer.restoreRDBFile"}},
-	{Pkg: pkgCommon, Roots: []string{"NewRDBLoader"}, Exclude: []string{"RestoreRdbEntry", "SelectDB", "OpenRedisConn", "OpenRedisConnWithTimeout"}},
+	{Pkg: pkgSync, Roots: []string{"DbSyncer.syncRDBFile"}, Keep: keep, KeepTypes: []string{"BinEntry"}, KeepFields: []string{"TargetDB"}},
+	{Pkg: pkgRun, Roots: []string{"dbRestorer.restoreRDBFile"}, Keep: keep, KeepTypes: []string{"BinEntry"}, KeepFields: []string{"TargetDB"}},
+	{Pkg: pkgCommon, Roots: []string{"NewRDBLoader"}, Exclude: []string{"RestoreRdbEntry", "SelectDB", "OpenRedisConn", "OpenRedisConnWithTimeout"}, Keep: keep},
 }
 
 func Run(c *core.Ctx) {
@@ -86,8 +88,8 @@ func pool(c *core.Ctx, fn *core.Fn, short string) {
 	core.InspectAll(body, func(n ast.Node) bool {
 		as, ok := n.(*ast.AssignStmt)
 		if ok && len(as.Rhs) == 1 && len(as.Lhs) == 1 {
-			if call, ok := ast.Unparen(as.Rhs[0]).(*ast.CallExpr); ok && isCommon(core.CalleeFunc(info, call), "NewRDBLoader") {
-				pipe = core.ObjOf(info, as.Lhs[0])
+			if call, ok := ast.Unparen(as.Rhs[0]).(*ast.CallExpr); ok && isCommon(CalleeF(info, call), "NewRDBLoader") {
+				pipe = Obj(info, as.Lhs[0])
 			}
 		}
 		return true
@@ -103,12 +105,69 @@ func pool(c *core.Ctx, fn *core.Fn, short string) {
 	}
 	c.Okf("R1.queue", short, fn.Decl.Pos(), "the entry channel is consumed only by range loops in %d worker literal(s); its only sender is the loader goroutine (R5)", len(workers))
 	for _, w := range workers {
+		if deadClosure(info, body, w.Lit) {
+			continue // a closure whose every call was expanded in place (its variable is only kept alive by `_ = v`)
+		}
 		worker(c, fn, short, w.Lit, w.Range)
 	}
 }
 
+// deadClosure: lit is bound to a local variable that is never called or passed on (only `_ = v` remains).
+func deadClosure(info *types.Info, body ast.Node, lit *ast.FuncLit) bool {
+	var v types.Object
+	core.InspectAll(body, func(n ast.Node) bool {
+		if as, ok := n.(*ast.AssignStmt); ok && len(as.Lhs) == len(as.Rhs) {
+			for i, r := range as.Rhs {
+				if ast.Unparen(r) == ast.Expr(lit) {
+					v = Obj(info, as.Lhs[i])
+				}
+			}
+		}
+		return true
+	})
+	if v == nil {
+		return false
+	}
+	dead := true
+	var stack []ast.Node
+	ast.Inspect(body, func(n ast.Node) bool {
+		if n == nil {
+			stack = stack[:len(stack)-1]
+			return false
+		}
+		stack = append(stack, n)
+		if id, ok := n.(*ast.Ident); ok && info.Uses[id] == v && len(stack) >= 2 {
+			as, ok := stack[len(stack)-2].(*ast.AssignStmt)
+			blank := ok && len(as.Lhs) == 1 && len(as.Rhs) == 1 && as.Rhs[0] == ast.Expr(id)
+			if blank {
+				l, isID := as.Lhs[0].(*ast.Ident)
+				blank = isID && l.Name == "_"
+			}
+			if !blank {
+				dead = false
+			}
+		}
+		return true
+	})
+	return dead
+}
+
+// through looks through conversions and through locals that are defined once and never re-assigned
+// (`fixedDB := conf.Options.TargetDB`).
+func Through(info *types.Info, e ast.Expr) ast.Expr {
+	for i := 0; i < 4; i++ {
+		e = Strip(info, e)
+		d := pat.DefOf(info, e)
+		if d == nil {
+			break
+		}
+		e = d
+	}
+	return e
+}
+
 func isTargetDB(info *types.Info, e ast.Expr) bool {
-	return core.IsFieldNamed(info, Strip(info, e), "Configuration", "TargetDB")
+	return core.IsFieldNamed(info, Through(info, e), "Configuration", "TargetDB")
 }
 
 // TargetDBSet matches the fact `TargetDB != -1` with the given truth value.
@@ -129,9 +188,9 @@ func TargetDBSet(info *types.Info, f cfgq.Fact, set bool) bool {
 }
 
 func isEntryDB(info *types.Info, e ast.Expr, entry types.Object) bool {
-	e = Strip(info, e)
+	e = Through(info, e)
 	sel, ok := e.(*ast.SelectorExpr)
-	return ok && core.IsFieldNamed(info, e, "BinEntry", "DB") && entry != nil && core.ObjOf(info, sel.X) == entry
+	return ok && core.IsFieldNamed(info, e, "BinEntry", "DB") && entry != nil && Obj(info, sel.X) == entry
 }
 
 func worker(c *core.Ctx, fn *core.Fn, short string, w *ast.FuncLit, rs *ast.RangeStmt) {
@@ -142,7 +201,7 @@ func worker(c *core.Ctx, fn *core.Fn, short string, w *ast.FuncLit, rs *ast.Rang
 		c.Undecidedf("R2.pair", short, rs.Pos(), "range loop not found in the worker's control-flow graph")
 		return
 	}
-	entry := core.ObjOf(info, rs.Key) // `for e := range ch`: the element is the Key position
+	entry := Obj(info, rs.Key) // `for e := range ch`: the element is the Key position
 	// ---- spawn site
 	var goStmt *ast.GoStmt
 	core.InspectAll(fn.Decl.Body, func(n ast.Node) bool {
@@ -156,14 +215,16 @@ func worker(c *core.Ctx, fn *core.Fn, short string, w *ast.FuncLit, rs *ast.Rang
 		return
 	}
 	path := core.PathTo(fn.Decl.Body, goStmt)
-	var spawnLoop *ast.ForStmt
+	var spawnLoop ast.Stmt
 	var encl ast.Node = fn.Decl
 	for _, p := range path {
 		switch x := p.(type) {
 		case *ast.ForStmt:
-			spawnLoop = x
+			if !OnceLoop(x) {
+				spawnLoop = x
+			}
 		case *ast.RangeStmt:
-			spawnLoop = nil
+			spawnLoop = x
 		case *ast.FuncLit:
 			encl, spawnLoop = x, nil
 		}
@@ -186,7 +247,7 @@ func worker(c *core.Ctx, fn *core.Fn, short string, w *ast.FuncLit, rs *ast.Rang
 	var openAs *ast.AssignStmt
 	for _, p := range core.PathTo(w, opens[0]) {
 		if as, ok := p.(*ast.AssignStmt); ok && len(as.Rhs) == 1 && ast.Unparen(as.Rhs[0]) == ast.Expr(opens[0]) && len(as.Lhs) == 2 {
-			openAs, conn = as, core.ObjOf(info, as.Lhs[0])
+			openAs, conn = as, Obj(info, as.Lhs[0])
 		}
 	}
 	if conn == nil {
@@ -201,14 +262,14 @@ func worker(c *core.Ctx, fn *core.Fn, short string, w *ast.FuncLit, rs *ast.Rang
 	var marks []types.Object
 	spec := ErrSpec{Rule: "R4.error", Mark: func(n ast.Node, err types.Object) bool {
 		as, ok := n.(*ast.AssignStmt)
-		if !ok || len(as.Lhs) != 1 || len(as.Rhs) != 1 || core.ObjOf(info, as.Rhs[0]) != err {
+		if !ok || len(as.Lhs) != 1 || len(as.Rhs) != 1 || Obj(info, as.Rhs[0]) != err {
 			return false
 		}
 		ix, ok := ast.Unparen(as.Lhs[0]).(*ast.IndexExpr)
 		if !ok {
 			return false
 		}
-		v, _ := core.ObjOf(info, ix.X).(*types.Var)
+		v, _ := Obj(info, ix.X).(*types.Var)
 		if v == nil || within(v, w) {
 			return false
 		}
@@ -266,14 +327,31 @@ func initConst(info *types.Info, body ast.Node, v types.Object) (int64, bool) {
 }
 
 // completion checks R3 for one worker literal.
-func completion(c *core.Ctx, fn *core.Fn, short string, w *ast.FuncLit, g *cfgq.Graph, goStmt *ast.GoStmt, spawnLoop *ast.ForStmt, encl ast.Node) {
+func completion(c *core.Ctx, fn *core.Fn, short string, w *ast.FuncLit, g *cfgq.Graph, goStmt *ast.GoStmt, spawnLoop ast.Stmt, encl ast.Node) {
 	info := fn.Pkg.TypesInfo
-	var wg types.Object
+	var wg, wgParam types.Object
 	for _, call := range core.CallsAll(w, info, func(_ *ast.CallExpr, o types.Object) bool {
 		f, _ := o.(*types.Func)
 		return core.IsFunc(f, "sync", "WaitGroup", "Done")
 	}) {
-		wg = core.ObjOf(info, call.Fun.(*ast.SelectorExpr).X)
+		wg = Obj(info, call.Fun.(*ast.SelectorExpr).X)
+	}
+	if wg != nil { // `go func(wg *sync.WaitGroup) {...}(&wg)`: the parameter stands for the argument
+		idx := 0
+		for _, f := range w.Type.Params.List {
+			for _, nm := range f.Names {
+				if info.Defs[nm] == wg && idx < len(goStmt.Call.Args) {
+					a := ast.Unparen(goStmt.Call.Args[idx])
+					if u, ok := a.(*ast.UnaryExpr); ok && u.Op == token.AND {
+						a = u.X
+					}
+					if o := Obj(info, a); o != nil {
+						wgParam, wg = wg, o
+					}
+				}
+				idx++
+			}
+		}
 	}
 	lit, _ := encl.(*ast.FuncLit)
 	if lit == nil {
@@ -293,36 +371,33 @@ func completion(c *core.Ctx, fn *core.Fn, short string, w *ast.FuncLit, g *cfgq.
 		}
 		return
 	}
-	done := func(n ast.Node) bool { return MethodCallOn(info, n, wg, "Done") }
+	done := func(n ast.Node) bool {
+		return MethodCallOn(info, n, wg, "Done") || wgParam != nil && MethodCallOn(info, n, wgParam, "Done")
+	}
 	ok, wp := MustPass(g, g.Entry(), false, done)
 	c.Check("R3.done", short, w.Pos(), ok,
 		"every path through the worker must signal wg.Done() (normally by defer): otherwise wg.Wait() blocks forever and "+short+" never returns although all entries were processed", wp...)
 	// Add bound
 	adds := core.Calls(lit, info, func(call *ast.CallExpr, o types.Object) bool {
 		f, _ := o.(*types.Func)
-		return core.IsFunc(f, "sync", "WaitGroup", "Add") && core.ObjOf(info, call.Fun.(*ast.SelectorExpr).X) == wg
+		return core.IsFunc(f, "sync", "WaitGroup", "Add") && Obj(info, call.Fun.(*ast.SelectorExpr).X) == wg
 	})
 	switch {
 	case len(adds) != 1 || spawnLoop == nil:
 		c.Undecidedf("R3.add", short, goStmt.Pos(), "expected one wg.Add and a counted spawn loop, found %d Add call(s)", len(adds))
-	case Within(adds[0], spawnLoop.Body):
+	case Within(adds[0], loopBody(spawnLoop)):
 		v, isC := core.IntConst(info, adds[0].Args[0])
 		c.Check("R3.add", short, adds[0].Pos(), isC && v == 1, "wg.Add inside the spawn loop must add exactly 1 per worker")
 	default:
-		b := pat.Expr("_i < _n").Match(info, spawnLoop.Cond, nil)
-		if b == nil {
-			c.Undecidedf("R3.add", short, spawnLoop.Pos(), "spawn loop condition is not `i < n`")
+		bound := LoopCount(info, spawnLoop)
+		if bound == nil {
+			c.Undecidedf("R3.add", short, spawnLoop.Pos(), "the number of iterations of the spawn loop is not in a recognised form (`i := 0; i < n; i++`, range over a slice made with length n, range n)")
 			break
 		}
-		bound, _ := b["_n"].(ast.Expr)
-		if _, isIdx := b["_i"].(*ast.Ident); !isIdx {
-			bound, _ = b["_i"].(ast.Expr)
-		}
 		arg := adds[0].Args[0]
-		same := pat.Same(info, Strip(info, arg), Strip(info, bound))
-		if same {
+		if SameCount(info, arg, bound) {
 			c.Okf("R3.add", short, adds[0].Pos(), "wg.Add(%s) equals the spawn bound", c.Src(arg))
-		} else if stable(info, arg) && stable(info, bound) {
+		} else if stable(info, Through(info, arg)) && stable(info, Through(info, bound)) || DiffCount(info, arg, bound) {
 			c.Failf("R3.add", short, adds[0].Pos(), "wg.Add(%s) differs from the number of workers spawned (%s): with fewer, wg.Wait() returns while workers are still restoring (the function returns before every entry is processed, or Done panics on a negative counter); with more it never returns", c.Src(arg), c.Src(bound))
 		} else {
 			c.Undecidedf("R3.add", short, adds[0].Pos(), "cannot compare wg.Add(%s) with spawn bound %s", c.Src(arg), c.Src(bound))
@@ -334,7 +409,7 @@ func completion(c *core.Ctx, fn *core.Fn, short string, w *ast.FuncLit, g *cfgq.
 	core.InspectAll(lit, func(n ast.Node) bool {
 		if call, ok := n.(*ast.CallExpr); ok {
 			if b, ok := core.Callee(info, call).(*types.Builtin); ok && b.Name() == "close" && len(call.Args) == 1 {
-				if o := core.ObjOf(info, call.Args[0]); o != nil && within(o, fn.Decl.Body) && !within(o, lit) {
+				if o := Obj(info, call.Args[0]); o != nil && within(o, fn.Decl.Body) && !within(o, lit) {
 					wait = o
 					nclose++
 				}
@@ -370,25 +445,90 @@ func completion(c *core.Ctx, fn *core.Fn, short string, w *ast.FuncLit, g *cfgq.
 		short+" returns before the workers have processed every entry of the RDB")
 }
 
-// scanFor finds `for _, e := range v { if e != nil { return e } }` under body.
-func scanFor(info *types.Info, body ast.Node, v types.Object) *ast.RangeStmt {
-	var rng *ast.RangeStmt
-	core.Inspect(body, func(n ast.Node) bool {
-		rs, ok := n.(*ast.RangeStmt)
-		if !ok || core.ObjOf(info, rs.X) != v || rs.Value == nil {
-			return true
-		}
-		val := core.ObjOf(info, rs.Value)
-		core.Inspect(rs.Body, func(m ast.Node) bool {
-			if ret, ok := m.(*ast.ReturnStmt); ok && len(ret.Results) > 0 && core.ObjOf(info, ret.Results[len(ret.Results)-1]) == val &&
-				cfgq.ClassifyReturn(info, body, ret) == cfgq.RetErr {
-				rng = rs
+// scanFor finds the place where the first non-nil element of v (or of a copy of it) becomes the result:
+//
+//	for _, e := range v { if e != nil { return e } }            (returned directly)
+//	for _, e := range v { if e != nil { r = e; break } } ... return r   (through a result variable)
+//	for i := 0; i < len(v) && acc == nil; i++ { acc = v[i] } ... return acc   (accumulator)
+//
+// It returns the node that starts the scan (the range operand / the loop condition).
+func scanFor(info *types.Info, body ast.Node, v types.Object) ast.Node {
+	var scan ast.Node
+	returned := func(o types.Object) bool { // some return statement of body returns o
+		hit := false
+		core.Inspect(body, func(m ast.Node) bool {
+			if ret, ok := m.(*ast.ReturnStmt); ok && len(ret.Results) > 0 && RootObj(info, ret.Results[len(ret.Results)-1]) == o {
+				hit = true
 			}
 			return true
 		})
+		return hit
+	}
+	nonNilArm := func(root ast.Node, stmt ast.Node, val types.Object) bool { // stmt sits in the arm of `if val != nil`
+		ok := false
+		path := core.PathTo(root, stmt)
+		for i := len(path) - 1; i > 0; i-- {
+			ifs, isIf := path[i-1].(*ast.IfStmt)
+			if !isIf || path[i] != ast.Node(ifs.Body) {
+				continue
+			}
+			for _, f := range cfgq.Facts(ifs.Cond, true) {
+				if nn, is := NilCmp(info, f, val); is && nn {
+					ok = true
+				}
+			}
+		}
+		return ok
+	}
+	core.Inspect(body, func(n ast.Node) bool {
+		switch l := n.(type) {
+		case *ast.RangeStmt:
+			if RootObj(info, l.X) != v || l.Value == nil {
+				return true
+			}
+			val := Obj(info, l.Value)
+			core.Inspect(l.Body, func(m ast.Node) bool {
+				switch s := m.(type) {
+				case *ast.ReturnStmt:
+					if len(s.Results) > 0 && Obj(info, s.Results[len(s.Results)-1]) == val && nonNilArm(l.Body, s, val) {
+						scan = l.X
+					}
+				case *ast.AssignStmt:
+					if len(s.Lhs) == 1 && len(s.Rhs) == 1 && Obj(info, s.Rhs[0]) == val && nonNilArm(l.Body, s, val) {
+						if r := Obj(info, s.Lhs[0]); r != nil && returned(r) {
+							scan = l.X
+						}
+					}
+				}
+				return true
+			})
+		case *ast.ForStmt:
+			if l.Cond == nil {
+				return true
+			}
+			// acc == nil in the condition, acc = v[i] in the body, acc returned
+			for _, f := range cfgq.Facts(l.Cond, true) {
+				be, ok := ast.Unparen(f.Expr).(*ast.BinaryExpr)
+				if !ok || be.Op != token.EQL {
+					continue
+				}
+				acc := Obj(info, be.X)
+				if !core.IsNil(info, be.Y) || acc == nil {
+					continue
+				}
+				core.Inspect(l.Body, func(m ast.Node) bool {
+					if s, ok := m.(*ast.AssignStmt); ok && len(s.Lhs) == 1 && len(s.Rhs) == 1 && Obj(info, s.Lhs[0]) == acc {
+						if ix, ok := ast.Unparen(s.Rhs[0]).(*ast.IndexExpr); ok && RootObj(info, ix.X) == v && returned(acc) {
+							scan = l.Cond
+						}
+					}
+					return true
+				})
+			}
+		}
 		return true
 	})
-	return rng
+	return scan
 }
 
 // successWithout: a success (non-error) return of the body of g is reachable without passing a node accepted by pass.
@@ -410,20 +550,20 @@ func propagate(c *core.Ctx, fn *core.Fn, short string, v types.Object) {
 	key := short + "/" + v.Name()
 	const lost = "a failed restore ends as a successful full sync"
 	if rng := scanFor(info, fn.Decl.Body, v); rng != nil {
-		w := successWithout(g, info, fn.Decl.Body, IsNode(rng.X))
+		w := successWithout(g, info, fn.Decl.Body, IsNode(rng))
 		c.Check("R4.propagate", key, rng.Pos(), w == nil, "a success return of "+short+" is reachable without scanning "+v.Name()+" for worker failures: "+lost, w...)
 		return
 	}
 	// one level of helper following: h(v) with the result returned or tested by fn
 	for _, call := range core.Calls(fn.Decl.Body, info, func(call *ast.CallExpr, _ types.Object) bool {
 		for _, a := range call.Args {
-			if core.ObjOf(info, a) == v {
+			if Obj(info, a) == v {
 				return true
 			}
 		}
 		return false
 	}) {
-		h := c.FnOf(core.CalleeFunc(info, call))
+		h := c.FnOf(CalleeF(info, call))
 		if h == nil || h.Decl.Body == nil || h.Pkg != fn.Pkg {
 			continue
 		}
@@ -431,7 +571,7 @@ func propagate(c *core.Ctx, fn *core.Fn, short string, v types.Object) {
 		i := 0
 		for _, f := range h.Decl.Type.Params.List {
 			for _, nm := range f.Names {
-				if i < len(call.Args) && core.ObjOf(info, call.Args[i]) == v {
+				if i < len(call.Args) && Obj(info, call.Args[i]) == v {
 					param = info.Defs[nm]
 				}
 				i++
@@ -443,7 +583,7 @@ func propagate(c *core.Ctx, fn *core.Fn, short string, v types.Object) {
 		}
 		c.Functions[h.Name()] = true
 		hg := cfgq.Of(c.Program, h)
-		if w := successWithout(hg, info, h.Decl.Body, IsNode(rng.X)); w != nil {
+		if w := successWithout(hg, info, h.Decl.Body, IsNode(rng)); w != nil {
 			c.Check("R4.propagate", key, rng.Pos(), false, "the helper that scans "+v.Name()+" can return success without scanning it: "+lost, w...)
 			return
 		}
@@ -485,8 +625,8 @@ func propagate(c *core.Ctx, fn *core.Fn, short string, v types.Object) {
 // call on the nil interface => runtime panic, process exits non-zero) before
 // anything else can happen. Returns "" if not established.
 func nilDeref(c *core.Ctx, g *cfgq.Graph, info *types.Info, as *ast.AssignStmt, call *ast.CallExpr) string {
-	conn := core.ObjOf(info, as.Lhs[0])
-	if conn == nil || !types.IsInterface(conn.Type()) || !nilOnError(c, core.CalleeFunc(info, call), 0) {
+	conn := Obj(info, as.Lhs[0])
+	if conn == nil || !types.IsInterface(conn.Type()) || !nilOnError(c, CalleeF(info, call), 0) {
 		return ""
 	}
 	p, ok := g.Find(as)
@@ -518,7 +658,7 @@ func nilOnError(c *core.Ctx, f *types.Func, depth int) bool {
 		switch len(ret.Results) {
 		case 1:
 			call, isCall := ast.Unparen(ret.Results[0]).(*ast.CallExpr)
-			if !isCall || !nilOnError(c, core.CalleeFunc(info, call), depth+1) {
+			if !isCall || !nilOnError(c, CalleeF(info, call), depth+1) {
 				ok = false
 			}
 		case 2:
@@ -547,7 +687,7 @@ func loader(c *core.Ctx, fn *core.Fn) {
 	info := fn.Pkg.TypesInfo
 	var pipe types.Object
 	if n, b := pat.Stmt("_p = make(_t, _s)").Find(info, fn.Decl.Body, nil); n != nil {
-		pipe = core.ObjOf(info, b["_p"].(ast.Expr))
+		pipe = Obj(info, b["_p"].(ast.Expr))
 	}
 	lits := core.FuncLits(fn.Decl.Body)
 	if pipe == nil || len(lits) != 1 {
@@ -560,9 +700,9 @@ func loader(c *core.Ctx, fn *core.Fn) {
 	ok, w := MustPass(g, g.Entry(), false, isClose)
 	c.Check("R5.close", "NewRDBLoader", lit.Pos(), ok, "the loader goroutine must close the entry channel on every return, or the workers' range loops never end and the run never finishes", w...)
 	// uses of pipe: make, send, close, return
-	sends := g.Points(func(n ast.Node) bool { s, ok := n.(*ast.SendStmt); return ok && core.ObjOf(info, s.Chan) == pipe })
-	next := core.Calls(lit, info, func(_ *ast.CallExpr, o types.Object) bool {
-		f, _ := o.(*types.Func)
+	sends := g.Points(func(n ast.Node) bool { s, ok := n.(*ast.SendStmt); return ok && Obj(info, s.Chan) == pipe })
+	next := core.Calls(lit, info, func(call *ast.CallExpr, _ types.Object) bool {
+		f := CalleeF(info, call)
 		return core.IsFunc(f, "pkg/rdb", "Loader", "NextBinEntry")
 	})
 	if len(next) != 1 || len(sends) == 0 {
@@ -572,7 +712,7 @@ func loader(c *core.Ctx, fn *core.Fn) {
 	np, _ := g.Find(next[0])
 	var entry types.Object
 	if as, ok := np.Node().(*ast.AssignStmt); ok && len(as.Lhs) == 2 {
-		entry = core.ObjOf(info, as.Lhs[0])
+		entry = Obj(info, as.Lhs[0])
 	}
 	if entry == nil {
 		c.Undecidedf("R5.send", "NewRDBLoader", next[0].Pos(), "NextBinEntry result not bound by `entry, err := ...`")
@@ -580,7 +720,7 @@ func loader(c *core.Ctx, fn *core.Fn) {
 	}
 	isSend := func(n ast.Node) bool {
 		s, ok := n.(*ast.SendStmt)
-		return ok && core.ObjOf(info, s.Chan) == pipe && core.ObjOf(info, s.Value) == entry
+		return ok && Obj(info, s.Chan) == pipe && Obj(info, s.Value) == entry
 	}
 	nilEdge := func(b *cfg.Block, s int) bool { // the edge establishes entry == nil
 		return EdgeFact(g, b, s, func(f cfgq.Fact) bool { nn, is := NilCmp(info, f, entry); return is && !nn })
@@ -600,8 +740,8 @@ func loader(c *core.Ctx, fn *core.Fn) {
 	// normal exit only after entry == nil and the footer
 	w4 := g.Path(cfgq.Query{From: np, After: true, AvoidEdge: nilEdge, TargetExit: NormalExit})
 	c.Check("R5.eof", "NewRDBLoader/until-nil", lit.Pos(), w4 == nil, "the loader goroutine may return (closing the channel) only after NextBinEntry returned a nil entry (EOF opcode); returning earlier drops the rest of the RDB silently", w4...)
-	footer := core.Calls(lit, info, func(_ *ast.CallExpr, o types.Object) bool {
-		f, _ := o.(*types.Func)
+	footer := core.Calls(lit, info, func(call *ast.CallExpr, _ types.Object) bool {
+		f := CalleeF(info, call)
 		return core.IsFunc(f, "pkg/rdb", "Loader", "Footer")
 	})
 	if len(footer) == 1 {
@@ -614,8 +754,8 @@ func loader(c *core.Ctx, fn *core.Fn) {
 		c.Undecidedf("R5.eof", "NewRDBLoader/footer", lit.Pos(), "expected one Footer call, found %d", len(footer))
 	}
 	for _, m := range []string{"Header", "NextBinEntry", "Footer"} {
-		for _, call := range core.Calls(lit, info, func(_ *ast.CallExpr, o types.Object) bool {
-			f, _ := o.(*types.Func)
+		for _, call := range core.Calls(lit, info, func(call *ast.CallExpr, _ types.Object) bool {
+			f := CalleeF(info, call)
 			return core.IsFunc(f, "pkg/rdb", "Loader", m)
 		}) {
 			ErrCheck(c, g, info, lit, call, ErrSpec{Rule: "R5.error", Key: "NewRDBLoader/" + m,
@@ -636,7 +776,7 @@ func oldVersion(info *types.Info, f cfgq.Fact) bool {
 		op = map[token.Token]token.Token{token.LSS: token.GTR, token.GTR: token.LSS, token.LEQ: token.GEQ, token.GEQ: token.LEQ}[op]
 	}
 	v, isC := core.IntConst(info, y)
-	o := core.ObjOf(info, x)
+	o := Obj(info, x)
 	if !isC || o == nil || o.Name() != "FromVersion" || o.Pkg() == nil || o.Pkg().Path() != core.Module+"/pkg/rdb" {
 		return false
 	}
